@@ -164,11 +164,6 @@ fn judge_chk(api: &str, got: G<Option<i128>>, exp: Exp, input: &dyn Fn() -> Stri
 
 const OC_ABS: Oc = Oc { panicked: "wadx.abs.min.open.panicked", none: "wadx.abs.min.open.none", returned: "wadx.abs.min.open.returned" };
 const OC_NEG: Oc = Oc { panicked: "wadx.neg.min.open.panicked", none: "wadx.neg.min.open.none", returned: "wadx.neg.min.open.returned" };
-const OC_CDIVI: Oc = Oc {
-    panicked: "wadx.checked_div_int.min_by_neg1.open.panicked",
-    none: "wadx.checked_div_int.min_by_neg1.open.none",
-    returned: "wadx.checked_div_int.min_by_neg1.open.returned",
-};
 const OC_DIVI: Oc =
     Oc { panicked: "wadx.op_div_int.min_by_neg1.open.panicked", none: "wadx.op_div_int.min_by_neg1.open.none", returned: "wadx.op_div_int.min_by_neg1.open.returned" };
 const OC_MUL: Oc = Oc { panicked: "wadx.op_mul.phantom.open.panicked", none: "wadx.op_mul.phantom.open.none", returned: "wadx.op_mul.phantom.open.returned" };
@@ -473,8 +468,9 @@ fn eval_item(e: &Env, a: i128, b: i128, d: u8, t: &mut Tally) -> Result<bool, Vi
         } else {
             let x = big::div_trunc(&ba, &bb);
             if a == i128::MIN && b == -1 {
-                // quotient 2^127: the docs of checked_div_int only speak about a zero divisor
-                judge_chk("checked_div_int", c, Exp::Open(&x, OC_CDIVI), &in2, t)?;
+                // quotient 2^127 does not fit: a checked divide of the Wad type reports no value (C12: "no value exactly when
+                // it does not fit (or the divisor is zero)"); the pinned tree panicked here - see KNOWN_FINDINGS.txt (fixed)
+                judge_chk("checked_div_int", c, Exp::Exact(&x), &in2, t)?;
                 judge_pan("op_div_int", o, Exp::Open(&x, OC_DIVI), &in2, t)?;
                 t.add("wadx.div_int.min_by_neg1");
                 nt = true;
